@@ -45,6 +45,22 @@ Proof. destruct m; reflexivity. Qed.
 Lemma wrap256_unsigned x : wrap256 x false = Ok (x mod W).
 Proof. reflexivity. Qed.
 
+Lemma wrap256_signed x : wrap256 x true = Ok (to_signed (x mod W)).
+Proof.
+  unfold wrap256. change (py_pow 2 256) with (@Ok Z W). cbn [bind].
+  unfold py_mod. change (W =? 0) with false. cbv iota. cbn [bind].
+  pose proof (Z.mod_pos_bound x W ltac:(reflexivity)) as B.
+  unfold unsigned_to_signed, int_bounds.
+  change (py_pow 2 256) with (@Ok Z W). change (py_pow 2 (256 - 1)) with (@Ok Z HALF). cbn [bind].
+  assert ((0 <=? x mod W) && (x mod W <=? W - 1) = true) as ->.
+  { apply andb_true_intro; split; apply Z.leb_le; lia. }
+  cbn [bind]. unfold to_signed.
+  destruct (x mod W >? HALF - 1) eqn:E; rewrite Z.gtb_ltb in E;
+    [apply Z.ltb_lt in E | apply Z.ltb_ge in E].
+  - assert (x mod W <? HALF = false) as -> by (apply Z.ltb_ge; lia). reflexivity.
+  - assert (x mod W <? HALF = true) as -> by (apply Z.ltb_lt; lia). reflexivity.
+Qed.
+
 Ltac consts := rewrite ?smin_val, ?smax_val, ?umax_val, ?SMIN_val, ?UMAX_val, ?lim_val in *.
 Ltac b2p :=
   repeat match goal with
@@ -82,6 +98,7 @@ Ltac head_step X :=
   | bind (py_rshift _ _) _ => unfold py_rshift at 1
   | bind (py_pow _ _) _ => unfold py_pow at 1
   | bind (wrap256 _ false) _ => rewrite wrap256_unsigned
+  | bind (wrap256 _ true) _ => rewrite wrap256_signed
   | bind (unopt (Some _)) _ => cbn [unopt bind]
   | bind (unopt None) _ => cbn [unopt bind]
   | bind (unopt ?o) _ => let E := fresh "E" in destruct o eqn:E
@@ -113,7 +130,7 @@ Ltac getreps :=
 Ltac Zify.zify_post_hook ::= Z.to_euclidean_division_equations.
 (* linear arithmetic with mod W / div by numerals: make W a numeral first *)
 Ltac mlia := rewrite ?W_val, ?HALF_val in *; lia.
-Ltac wit x := split; [exists x; split; [wl | ] | wl].
+Ltac sw x := split; [exists x; split; mlia | mlia].
 
 Theorem eval_add_sound : sound2 eval_add w_add.
 Proof.
@@ -121,14 +138,12 @@ Proof.
   destruct A as [| |l1 h1], B as [| |l2 h2]; cbn [mem wf] in *; try contradiction;
     open_range; rewrite ?wrap256_unsigned; consts.
   all: exec. all: getreps; subst a b; unfold w_add.
-  - split; [exists ((l1 + l2) mod W); split; [lia|mlia] | mlia].
-  - split; [exists ((l1 + l2) mod W); split; [lia|mlia] | mlia].
-  - split; [exists (l1 + l2); split; [lia|mlia] | mlia].
-  - split; [exists (v1 + v0); split; [lia|mlia] | mlia].
-  - split; [exists (v1 + v0); split; [lia|mlia] | mlia].
+  all: lazymatch goal with
+       | |- (exists v, _ mod W <= v <= _ /\ _) /\ _ => sw ((v1 + v0) mod W)
+       | _ => sw (v1 + v0)
+       end.
 Qed.
 
-Ltac sw x := split; [exists x; split; mlia | mlia].
 Ltac start2 f :=
   intros A B a b WA WB MA MB; unfold f;
   destruct A as [| |l1 h1], B as [| |l2 h2]; cbn [mem wf] in *; try contradiction;
@@ -137,11 +152,10 @@ Ltac start2 f :=
 Theorem eval_sub_sound : sound2 eval_sub w_sub.
 Proof.
   start2 eval_sub; unfold w_sub.
-  - sw ((v1 - v0) mod W).
-  - sw ((v1 - v0) mod W).
-  - sw (v1 - v0).
-  - sw (v1 - v0).
-  - sw (v1 - v0).
+  all: lazymatch goal with
+       | |- (exists v, _ mod W <= v <= _ /\ _) /\ _ => sw ((v1 - v0) mod W)
+       | _ => sw (v1 - v0)
+       end.
 Qed.
 
 Theorem eval_mul_sound : sound2 eval_mul w_mul.
@@ -154,11 +168,8 @@ Proof.
             split; [exists 0; split; [lia | reflexivity] | wl]).
   all: rewrite <- Z.mul_mod by wl.
   all: try (assert (v1 = h1) by lia; assert (v0 = h2) by lia; subst v1 v0).
-  - split; [exists ((h1 * h2) mod W); split; [lia | apply Z.mod_mod; wl] | pose proof (Z.mod_pos_bound (h1 * h2) W); wl].
-  - split; [exists ((h1 * h2) mod W); split; [lia | apply Z.mod_mod; wl] | pose proof (Z.mod_pos_bound (h1 * h2) W); wl].
-  - split; [exists (h1 * h2); split; [lia | reflexivity] | wl].
-  - split; [exists (v1 * v0); split; [nia | reflexivity] | nia].
-  - split; [exists (v1 * v0); split; [nia | reflexivity] | nia].
-  - split; [exists (v1 * v0); split; [nia | reflexivity] | nia].
-  - split; [exists (v1 * v0); split; [nia | reflexivity] | nia].
+  all: first
+    [ split; [exists ((h1 * h2) mod W); split; [lia | apply Z.mod_mod; wl] | pose proof (Z.mod_pos_bound (h1 * h2) W); wl]
+    | split; [exists (h1 * h2); split; [lia | reflexivity] | wl]
+    | split; [exists (v1 * v0); split; [nia | reflexivity] | nia] ].
 Qed.
